@@ -35,6 +35,7 @@ def plan(tier, seed):
     n = 20000 if tier == "quick" else 400000
     per = n // NPARTS
     specs += [{"kind": "random", "start": p * per, "count": per} for p in range(NPARTS)]
+    specs.append({"kind": "suite"})
     return specs
 
 
@@ -160,6 +161,10 @@ def run_random_case(ctx, sau, kind, idx):
 
 
 def run(ctx, spec):
+    if spec["kind"] == "suite":     # the repository's own tests with the search post-conditions attached
+        from .. import suite
+        suite.run_suite(ctx, ["search:"])
+        return
     import traffic_weaver.sorted_array_utils as sau
     inst = Installer()
     search_mon.install(inst)
